@@ -1,6 +1,6 @@
 SPECIFICATION Spec
 CONSTANTS
-  MaxDepth = 3
+  MaxDepth = 2
   MaxItems = 2
   MaxLen = 6
 INVARIANT CaseInv
